@@ -47,6 +47,11 @@ import (
 //    timestamp / chain / entry type / signature type / key / key kind / shard; submitted chain: full (3-4
 //    certificates: "at most 3" are parsed), leaf alone, precert alone, precert+pre-issuer, EMPTY (len 0),
 //    full + an unparsable 4th/3rd element.
+//  Declared length vs delivered body (ContentLength field and Content-Length header are the server's word):
+//    declared len+1, 2^31, 2^49, 2^62, 2^63-1 with the body ending early (io.ErrUnexpectedEOF, as net/http
+//    does); declared smaller than the body, and 0, with the body cut there; -1 (chunked); header disagreeing
+//    with the field (3, 2^62, "abc", "-5"); field huge with the whole body delivered; each also under a
+//    non-200 status. Content-Type wrong / absent, Content-Encoding gzip over plain bytes, Transfer-Encoding.
 //  "non-200": 199 201 202 204 206 299 300 304 400 403 404 408 429 500 502 503 with the correct body.
 //  "truncated / over-long / wrongly typed": body cut at every byte (read error), cut cleanly, trailing
 //    garbage, each field wrongly typed / null / missing / out of range (2^64, 2^63, -1, 1.5, 1e400), whole
@@ -703,6 +708,8 @@ func faultFamily(kind string) string {
 		return "http.status"
 	case strings.HasPrefix(kind, "header"):
 		return "http.header"
+	case strings.HasPrefix(kind, "declen"):
+		return "http.length"
 	}
 	return "http.garbage"
 }
